@@ -168,6 +168,9 @@ pub enum Op {
 
     // ---- control ----
     /// panic!("injected") if the last result of this thread equals v (or always when v < 0)
+    /// data-dependent control flow: the next operation of this thread is skipped unless the last
+    /// result of this thread equals v
+    SkipNextUnless { v: i8 },
     PanicIf { v: i8 },
     /// `cell.with_mut(|_| panic!("injected failure"))` / the same inside an atomic's `with_mut`
     PanicInCellMut { c: u8 },
@@ -419,6 +422,7 @@ impl fmt::Display for Op {
             TlsBump { k } => write!(f, "tls{}.bump", k),
             LazyGet { k } => write!(f, "lazy{}.get", k),
             LazyCellRead { k } => write!(f, "lazy{}.cell_read", k),
+            SkipNextUnless { v } => write!(f, "skip_next_unless({})", v),
             PanicIf { v } => write!(f, "panic_if({})", v),
             PanicInCellMut { c } => write!(f, "c{}.with_mut(panic)", c),
             PanicInAtomMut { a } => write!(f, "x{}.with_mut(panic)", a),
